@@ -36,7 +36,7 @@ ASSUMPTIONS = [
     'trusted_gateways=None (the documented default: everybody may forward) is not asserted',
     'workload restriction: a header is never both structurally malformed and built for an absent user with password "None" (two known defects would chain in the twin)',
 ]
-REQUIRED = ['second_check_on_same_request', 'other_table_consulted_before_the_configured_one_ever_saw_the_credentials', 'ref_selfcheck_ok', 'direct_accept_digest_qop_auth', 'direct_accept_digest_rfc2069', 'direct_accept_basic_encrypt_str',
+REQUIRED = ['vhost_request_without_a_host_header', 'second_check_on_same_request', 'other_table_consulted_before_the_configured_one_ever_saw_the_credentials', 'ref_selfcheck_ok', 'direct_accept_digest_qop_auth', 'direct_accept_digest_rfc2069', 'direct_accept_basic_encrypt_str',
             'direct_accept_basic_encrypt_callable', 'users_callable_dict', 'users_callable_lookup',
             'refused_returning_false', 'refused_by_exception', 'refused_wrong_realm', 'refused_unknown_user', 'refused_wrong_password',
             'refused_tampered_response', 'refused_field_digest_mismatch', 'malformed_digest_header_sent', 'unknown_scheme_sent',
@@ -794,7 +794,7 @@ def vhost_route(case, xfh, host=None, force_attr=False):
                                           'x': (lambda c: lambda self, *a, **kw: 'AT ' + c + ' x')(chan)})().register(app)
             while len(app):
                 app.flush()
-            headers = [('Host', host)] + ([('X-Forwarded-Host', xfh)] if xfh is not None else []) + \
+            headers = ([] if case.get('no_host') else [('Host', host)]) + ([('X-Forwarded-Host', xfh)] if xfh is not None else []) + \
                 ([('X-Forwarded-For', case['xff'])] if case.get('xff') else []) + [tuple(x) for x in claim]
             status, _rh, body = wsgi_call(app, wsgi_environ(case['remote'], case['path'], headers, env_order=case.get('env_order', 'addr-first')))
             return status[:3] + ' ' + body.decode('latin-1')[:40]
@@ -810,6 +810,8 @@ def vhost_route(case, xfh, host=None, force_attr=False):
                                           'x': (lambda c: lambda self, *a, **kw: 'AT ' + c + ' x')(chan)})().register(w)
             w.settle()
             lines = ['GET %s HTTP/1.1' % case['path'], 'Host: ' + host]
+            if case.get('no_host'):
+                lines = ['GET %s HTTP/1.0' % case['path']]      # (an HTTP/1.0 request need not name a host)
             if xfh is not None:
                 lines.append('X-Forwarded-Host: ' + xfh)
             if case.get('xff'):
@@ -817,7 +819,7 @@ def vhost_route(case, xfh, host=None, force_attr=False):
             lines += ['%s: %s' % tuple(x) for x in claim]
             w.feed(sock, [('\r\n'.join(lines) + '\r\n\r\n').encode('ascii')])
             out = w.written(sock)
-            if not out.startswith(b'HTTP/1.1 '):
+            if not out.startswith((b'HTTP/1.1 ', b'HTTP/1.0 ')):
                 raise Inconclusive('vhost e2e: no response')
             return out[9:12].decode() + ' ' + out.partition(b'\r\n\r\n')[2].decode('latin-1')[:40]
         from circuits.web.events import request as request_event
@@ -825,7 +827,7 @@ def vhost_route(case, xfh, host=None, force_attr=False):
         from circuits.web.wrappers import Request, Response
         vh.register(w)
         w.settle()
-        hs = Headers([('Host', host)])
+        hs = Headers([] if case.get('no_host') else [('Host', host)])
         if xfh is not None:
             hs['X-Forwarded-Host'] = xfh
         if case.get('xff'):
@@ -841,6 +843,8 @@ def vhost_route(case, xfh, host=None, force_attr=False):
 
 def run_vhost(case, force_attr=False):
     problems, oks, marks = [], {}, set()
+    if case.get('via') == 'wsgi' and case.get('no_host'):
+        case = dict(case, no_host=False)      # (the WSGI front end builds its Request from HTTP_HOST; a gateway always provides one)
     if case.get('via') == 'e2e':
         marks.add('vhost_e2e_cases')
     if case.get('via') == 'wsgi':
@@ -850,7 +854,9 @@ def run_vhost(case, force_attr=False):
     with_h = vhost_route(case, case['xfh'], force_attr=force_attr)
     without = vhost_route(case, None, force_attr=force_attr)
     first = (case['xfh'] or '').split(',')[0].strip().lower()
-    as_host = vhost_route(case, None, host=first, force_attr=force_attr) if first else without
+    as_host = vhost_route(dict(case, no_host=False), None, host=first, force_attr=force_attr) if first else without
+    if case.get('no_host'):
+        marks.add('vhost_request_without_a_host_header')
     visible = as_host != without          # honouring the header would be observable
     gw = case['gateways']
     nontrivial = False
@@ -1250,6 +1256,12 @@ def vhost_corpus():
             for xfh in (None, 'b.example', ' B.example , a.example', 'other.example'):
                 for host in ('a.example', 'other.example'):
                     out.append(V(gw, remote, host, xfh))
+    # requests that name no host at all (HTTP/1.0): the forwarded-host header of an untrusted peer must not fill the gap
+    for gw in (['10.0.0.1'], [], ['10.0.0.1', '10.0.0.2']):
+        for remote in ('10.0.0.1', '6.6.6.6'):
+            for via in ('direct', 'e2e', 'wsgi'):
+                for xfh in ('b.example', 'a.example, b.example'):
+                    out.append(V(gw, remote, 'a.example', xfh, path='/x', via=via, no_host=True))
     for gt in ('tuple', 'set'):
         out.append(V(['10.0.0.1'], '6.6.6.6', 'a.example', 'b.example', gw_type=gt))
         out.append(V(['10.0.0.1'], '10.0.0.1', 'a.example', 'b.example', gw_type=gt))
@@ -1444,7 +1456,8 @@ def gen_vhost(rng):
     return V(gw, rng.choice(REMOTES), rng.choice(['a.example', 'b.example', 'other.example', 'b.example:8000']), rng.choice(XFHS),
              path=rng.choice(['/', '/x', '/x/y']), via=rng.choice(['e2e', 'wsgi', 'wsgi', 'direct', 'direct', 'direct', 'direct']),
              gw_type=rng.choice(['list', 'tuple', 'set']), xff=rng.choice([None, None, '10.0.0.1', '10.0.0.1, 6.6.6.6']),
-             claims=rng.choice([None, None, '10.0.0.1', '10.0.0.2', '10.0.0.11']), env_order=rng.choice(['addr-first', 'addr-last']))
+             claims=rng.choice([None, None, '10.0.0.1', '10.0.0.2', '10.0.0.11']), env_order=rng.choice(['addr-first', 'addr-last']),
+             no_host=rng.random() < 0.15)
 
 
 def gen_case(rng):
